@@ -148,7 +148,10 @@ def run(prop, tier, replay=None):
                     broken.append("TLC simulation %s failed: %s" % (tag, r["out"][-800:]))
                     continue
                 for j, sc in enumerate(scripts_from_sim(simdir, w, t)):
-                    scen.append({"writers": w, "writes": n, "holders": [] if k == "none" else [k], "max": 2, "policy": "script",
+                    hk = [] if k == "none" else [k]
+                    if k == "order" and j % 2:
+                        hk = ["orderbreak"]        # same protocol steps, the iteration is left early
+                    scen.append({"writers": w, "writes": n, "holders": hk, "max": 2, "policy": "script",
                                  "seed": seed * 1000 + j, "script": sc, "samekey": j % 2 == 1})
             # adversarial schedules: counterexamples of the models that lack one re-scheduling / re-check site
             adv_futs = [ex.submit(adversarial_script, work, site, kind, w, n, 3) for site, kind in ADVERSARIAL
@@ -167,7 +170,7 @@ def run(prop, tier, replay=None):
             # seeded policies, all holder kinds incl. those the model groups with getmax (setmax, wsize)
             nrand = 40 if quick else 500
             kinds = [[], ["invalidateAll"], ["order"], ["getmax"], ["cleanup"], ["reader"], ["setmax"], ["wsize"],
-                     ["invalidateAll", "order"], ["order", "getmax"]]
+                     ["invalidateAll", "order"], ["order", "getmax"], ["orderbreak"], ["orderbreak", "orderbreak"]]
             for hk in kinds:
                 for j in range(nrand):
                     scen.append({"writers": 2 + (j % 2), "writes": 1 + (j % 3), "holders": hk, "max": 2,
